@@ -369,6 +369,11 @@ func checkOutputCompleteness(c *Ctx, p *Prog, rule string) {
 		c.Undecided(rule, "main.main", "function not found")
 		return
 	}
+	if mainTableDecided(p) {
+		checkMainTable(c, p, rule, "complete")
+		checkGenWriters(c, p, rule)
+		return
+	}
 	want := map[string]string{
 		"internal/token/gen.Gen":        "",
 		"internal/util/gen.Gen":         "",
@@ -405,68 +410,7 @@ func checkOutputCompleteness(c *Ctx, p *Prog, rule string) {
 			c.Ob(rule, "main: "+n, false, "generator is never called from main")
 		}
 	}
-	// inside the generators every writer is called unconditionally
-	for _, g := range []struct {
-		pkg, fn string
-		n       int
-	}{{"internal/lexer/gen/golang", "Gen", 3}, {"internal/parser/gen", "Gen", 7}, {"internal/token/gen", "Gen", 2}, {"internal/util/gen", "Gen", 2}} {
-		fn := p.Func(g.pkg, g.fn)
-		if fn == nil {
-			c.Undecided(rule, g.pkg+".Gen", "function not found")
-			continue
-		}
-		n, cond := 0, 0
-		for _, b := range fn.Blocks {
-			for _, in := range b.Instrs {
-				if call, ok := in.(*ssa.Call); ok {
-					if f := call.Call.StaticCallee(); f != nil && p.IsModFn(f) && strings.Contains(f.Pkg.Pkg.Path(), "/gen") {
-						n++
-						if len(guardsOf(fn, b)) > 0 {
-							cond++
-						}
-					}
-				}
-			}
-		}
-		c.Ob(rule, g.pkg+".Gen calls all its writers", n == g.n && cond == 0, fmt.Sprintf("%d writer calls (%d expected), %d of them conditional", n, g.n, cond), p.FnPos(fn))
-	}
-	// every writer reaches io.WriteFile unconditionally (panics aside)
-	oa := newOrderAnalysis(c, p)
-	oa.findWriters()
-	nW := 0
-	for _, fn := range sortedFuncs(p.Reach) {
-		if fn.Pkg == nil || !strings.Contains(fn.Pkg.Pkg.Path(), "/gen/golang") {
-			continue
-		}
-		for _, b := range fn.Blocks {
-			for _, in := range b.Instrs {
-				call, ok := in.(*ssa.Call)
-				if !ok {
-					continue
-				}
-				f := call.Call.StaticCallee()
-				if f == nil {
-					continue
-				}
-				if _, isW := oa.writers[f]; !isW {
-					continue
-				}
-				nW++
-				gs := guardsOf(fn, b)
-				// the zip switch selects between two writers of the same file: allowed
-				okG := true
-				for _, g := range gs {
-					if _, isParam := g.Cond.(*ssa.Parameter); !isParam {
-						okG = false
-					}
-				}
-				c.Ob(rule, p.FnName(fn)+" writes its file", okG, fmt.Sprintf("the file write depends on %d conditions other than the zip switch", len(gs)), p.Pos(call.Pos()))
-			}
-		}
-	}
-	if nW < 14 {
-		c.Undecided(rule, "vacuity", fmt.Sprintf("only %d file writes found in the generator packages (14 confirmed by hand)", nW))
-	}
+	checkGenWriters(c, p, rule)
 }
 
 // ---- R09.4 generator error discipline -----------------------------------------------------------------
@@ -508,6 +452,15 @@ func errorHandled(p *Prog, fn *ssa.Function, v ssa.Value, depth int, seen map[ss
 		case *ssa.Phi:
 			if errorHandled(p, fn, x, depth+1, seen) {
 				return true
+			}
+		case *ssa.Call:
+			// handed to a helper of the module that deals with it (tests it and exits, panics or returns it)
+			if callee := x.Call.StaticCallee(); callee != nil && p.IsModFn(callee) && callee.Blocks != nil {
+				for k, a := range x.Call.Args {
+					if a == v && k < len(callee.Params) && errorHandled(p, callee, callee.Params[k], depth+1, seen) {
+						return true
+					}
+				}
 			}
 		case *ssa.Store:
 			// stored into a named result / local: follow loads of the same address
@@ -869,4 +822,70 @@ func checkModuleSearch(c *Ctx, p *Prog, rule string) {
 	}
 	c.Ob(rule, "config: go.mod is searched upwards from the directory whose package is wanted", passes && startsAtParam && !getwd,
 		fmt.Sprintf("defaultPackage hands its directory to currentModule=%v; the search starts at that parameter=%v; currentModule asks os.Getwd=%v — required true, true, false: with go.mod (module demo) and tools/go.mod (module other), `gocc -o tools/out` must generate imports of other/out/..., not demo/tools/out/...", passes, startsAtParam, getwd), p.FnPos(cm))
+}
+
+// checkGenWriters: inside the generators every writer is called, and every writer writes its file.
+func checkGenWriters(c *Ctx, p *Prog, rule string) {
+	// inside the generators every writer is called unconditionally
+	for _, g := range []struct {
+		pkg, fn string
+		n       int
+	}{{"internal/lexer/gen/golang", "Gen", 3}, {"internal/parser/gen", "Gen", 7}, {"internal/token/gen", "Gen", 2}, {"internal/util/gen", "Gen", 2}} {
+		fn := p.Func(g.pkg, g.fn)
+		if fn == nil {
+			c.Undecided(rule, g.pkg+".Gen", "function not found")
+			continue
+		}
+		n, cond := 0, 0
+		for _, b := range fn.Blocks {
+			for _, in := range b.Instrs {
+				if call, ok := in.(*ssa.Call); ok {
+					if f := call.Call.StaticCallee(); f != nil && p.IsModFn(f) && strings.Contains(f.Pkg.Pkg.Path(), "/gen") {
+						n++
+						if len(guardsOf(fn, b)) > 0 {
+							cond++
+						}
+					}
+				}
+			}
+		}
+		c.Ob(rule, g.pkg+".Gen calls all its writers", n == g.n && cond == 0, fmt.Sprintf("%d writer calls (%d expected), %d of them conditional", n, g.n, cond), p.FnPos(fn))
+	}
+	// every writer reaches io.WriteFile unconditionally (panics aside)
+	oa := newOrderAnalysis(c, p)
+	oa.findWriters()
+	nW := 0
+	for _, fn := range sortedFuncs(p.Reach) {
+		if fn.Pkg == nil || !strings.Contains(fn.Pkg.Pkg.Path(), "/gen/golang") {
+			continue
+		}
+		for _, b := range fn.Blocks {
+			for _, in := range b.Instrs {
+				call, ok := in.(*ssa.Call)
+				if !ok {
+					continue
+				}
+				f := call.Call.StaticCallee()
+				if f == nil {
+					continue
+				}
+				if _, isW := oa.writers[f]; !isW {
+					continue
+				}
+				nW++
+				gs := guardsOf(fn, b)
+				// the zip switch selects between two writers of the same file: allowed
+				okG := true
+				for _, g := range gs {
+					if _, isParam := g.Cond.(*ssa.Parameter); !isParam {
+						okG = false
+					}
+				}
+				c.Ob(rule, p.FnName(fn)+" writes its file", okG, fmt.Sprintf("the file write depends on %d conditions other than the zip switch", len(gs)), p.Pos(call.Pos()))
+			}
+		}
+	}
+	if nW < 14 {
+		c.Undecided(rule, "vacuity", fmt.Sprintf("only %d file writes found in the generator packages (14 confirmed by hand)", nW))
+	}
 }
